@@ -75,6 +75,7 @@ pub struct SpyState {
     pub faults_injected: u64,
     pub vt_checks: u64,
     pub vt_mismatch: u64,
+    pub vt_crashed: bool,
     pub vt_mismatch_sample: Option<String>,
     pub user_lines: usize,
     pub extra: Option<ExtraFn>,
@@ -111,6 +112,7 @@ impl SpyTerm {
             faults_injected: 0,
             vt_checks: 0,
             vt_mismatch: 0,
+            vt_crashed: false,
             vt_mismatch_sample: None,
             user_lines: 0,
             extra: None,
@@ -244,7 +246,12 @@ impl SpyState {
     fn feed(&mut self, s: &str) {
         self.screen.feed(s);
         if let Some(vt) = &mut self.vt {
-            vt.process(s.as_bytes());
+            // the cross-checker must never take the case down with it
+            let ok = std::panic::catch_unwind(std::panic::AssertUnwindSafe(|| vt.process(s.as_bytes()))).is_ok();
+            if !ok {
+                self.vt = None;
+                self.vt_crashed = true;
+            }
         }
     }
 
